@@ -1,3 +1,2 @@
--- This module serves as the root of the `Moyo` library.
--- Import modules here that should be built as part of the library.
-import Moyo.Basic
+-- Root of the `Moyo` library. All modules under Moyo/ are built through the `globs` in lakefile.toml.
+import Moyo.Model.IMat
